@@ -45,7 +45,9 @@ ssize_t read_data(zckCtx *zck, char *data, size_t length) {
     }
     ssize_t read_bytes = read(zck->fd, data, length);
     if(read_bytes == -1) {
-        set_error(zck, "Error reading data: %s", strerror(errno));
+        /* What the failed call did with the file position and with the data
+         * already handed out is unknown: nothing can be resumed from here */
+        set_fatal_error(zck, "Error reading data: %s", strerror(errno));
         return -1;
     }
     return read_bytes;
